@@ -3,7 +3,7 @@ from datetime import datetime
 
 from harness.core import worker_main
 from harness.models import vorm
-from harness.models.vmodel import VA, VB, VC, VM, VN, VK, Kind, VMMapping, Fa, Fb, plain_function
+from harness.models.vmodel import VA, VB, VC, VW, VM, VN, VK, Kind, VMMapping, Fa, Fb, plain_function
 
 from krrood.ormatic.dao import to_dao, ToDAOState, FromDAOState
 from harness.models import jsonmodel, jsonmodel2
@@ -12,9 +12,9 @@ SHARED_TO_DAO_STATE = ToDAOState()      # one conversion state for every heap th
 
 GEN = None
 SCALARS = {"VA": ["name", "kind", "when", "nums", "weight", "k", "a", "b", "w", "label"], "VB": ["name", "kind", "when", "nums", "weight", "k", "a", "b", "w", "label", "extra"],
-           "VC": ["tag", "tag2", "j1", "j2", "cb"], "VM": ["label"], "VN": ["label", "extra"]}
-SINGLE = {"VA": ["one", "other"], "VB": ["one", "other"], "VC": ["back", "m"], "VM": ["ref"], "VN": ["ref"]}
-MANY = {"VA": ["many"], "VB": ["many"], "VC": ["peers"], "VM": [], "VN": []}
+           "VC": ["tag", "tag2", "j1", "j2", "cb"], "VW": ["tag", "tag2", "j1", "j2", "cb", "hidden", "extra_w"], "VM": ["label"], "VN": ["label", "extra"]}
+SINGLE = {"VA": ["one", "other"], "VB": ["one", "other"], "VC": ["back", "m"], "VW": ["back", "m"], "VM": ["ref"], "VN": ["ref"]}
+MANY = {"VA": ["many"], "VB": ["many"], "VC": ["peers"], "VW": ["peers"], "VM": [], "VN": []}
 
 
 def build(case):
@@ -26,8 +26,8 @@ def build(case):
                       nums=[i, i + 1] if i != 3 else [], weight=i * 0.5 if i != 1 else None, k=VK(i) if i != 2 else None,
                       a=i, b=-i, w=i if i != 3 else None, label=('C1', 'C', '')[i % 3])
             objs[i] = VB(extra=i * 10, **kw) if c == "B" else VA(**kw)
-        elif c == "C":
-            objs[i] = VC(tag=i, tag2=7 * i, cb=(Fa.act, Fb.act, plain_function)[i % 3], j1=(jsonmodel.A(i, [i, "x"]) if i == 2 else jsonmodel.B(i, [i, "x"])) if i != 1 else None, j2=jsonmodel2.A(i, None))
+        elif c in ("C", "W"):
+            objs[i] = (VC if c == "C" else VW)(**({} if c == "C" else {"hidden": 40 + i, "extra_w": 50 + i}), tag=i, tag2=7 * i, cb=(Fa.act, Fb.act, plain_function)[i % 3], j1=(jsonmodel.A(i, [i, "x"]) if i == 2 else jsonmodel.B(i, [i, "x"])) if i != 1 else None, j2=jsonmodel2.A(i, None))
         elif c == "N":
             objs[i] = VN(label=f"n{i}", extra=100 + i)
         else:
@@ -36,7 +36,7 @@ def build(case):
         o = objs[i]
         if cls[i - 1] in ("A", "B"):
             o.one = objs.get(r["one"]); o.other = objs.get(r["other"]); o.many = [objs[x] for x in r["many"]]
-        elif cls[i - 1] == "C":
+        elif cls[i - 1] in ("C", "W"):
             o.back = objs.get(r["back"]); o.m = objs.get(r["m"]); o.peers = [objs[x] for x in r["peers"]]
         else:
             o.ref = objs.get(r["ref"])
@@ -127,8 +127,8 @@ def c05(case):
             s1.commit()
         with engine.connect() as con:
             out["rows"] = {t: con.execute(text(f'select count(*) from "{n}"')).scalar()
-                           for t, n in (("VA", "VADAO"), ("VB", "VBDAO"), ("VC", "VCDAO"), ("VM", "VMMappingDAO"), ("VN", "VNDAO"))}
-        chain = {"VA": ["VADAO"], "VB": ["VBDAO", "VADAO"], "VC": ["VCDAO"], "VM": ["VMMappingDAO"],
+                           for t, n in (("VA", "VADAO"), ("VB", "VBDAO"), ("VC", "VCDAO"), ("VM", "VMMappingDAO"), ("VN", "VNDAO"), ("VW", "VWDAO"))}
+        chain = {"VA": ["VADAO"], "VB": ["VBDAO", "VADAO"], "VC": ["VCDAO"], "VW": ["VWDAO", "VCDAO"], "VM": ["VMMappingDAO"],
                  "VN": ["VNDAO", "VMMappingDAO"]}[type(root).__name__]
         diffs = {}
         for dn in chain:
@@ -158,7 +158,7 @@ def c05(case):
                 for f in ("one", "other", "back", "m", "ref"):
                     t = getattr(d, f, None)
                     if t is not None and hasattr(t, "database_id"):
-                        tn = {"VBDAO": "VADAO", "VNDAO": "VMMappingDAO"}.get(type(t).__name__, type(t).__name__)
+                        tn = {"VBDAO": "VADAO", "VNDAO": "VMMappingDAO", "VWDAO": "VCDAO"}.get(type(t).__name__, type(t).__name__)
                         want = loaded.get((tn, t.database_id))
                         if want is not None and getattr(o, f, None) is not want[1] and not isinstance(getattr(o, f, None), VMMapping):
                             shared_problem = f"{dn} row {pk}.{f}: not the object that loading the target row gave"
